@@ -62,6 +62,7 @@ type c09Route struct {
 	Fam    string   `json:"fam"` // v4 | v6
 	Nha    string   `json:"nha"` // NEXT_HOP attribute value or "none"
 	Nhm    string   `json:"nhm"` // MP_REACH_NLRI next hop or "none"
+	Nhl    string   `json:"nhl"` // link-local address following it in a 32-octet next hop, or "none"
 	Asattr bool     `json:"asattr"`
 	Aspath []c09Seg `json:"aspath"`
 	Origin int      `json:"origin"`
@@ -80,6 +81,7 @@ type c09Attrs struct {
 	Aspath []c09Seg `json:"aspath"`
 	Nha    string   `json:"nha"`
 	Nhm    string   `json:"nhm"`
+	Nhl    string   `json:"nhl"`
 	Lp     int64    `json:"lp"`
 	Med    int64    `json:"med"`
 	Origid string   `json:"origid"`
@@ -450,7 +452,11 @@ func c09Build(r c09Route, pfx int) c09Built {
 		attrs = append(attrs, a)
 	}
 	if r.Nhm != "none" {
-		a, err := bgp.NewPathAttributeMpReachNLRI(fam, []bgp.PathNLRI{{NLRI: nlri}}, netip.MustParseAddr(r.Nhm))
+		nhs := []netip.Addr{netip.MustParseAddr(r.Nhm)}
+		if r.Nhl != "" && r.Nhl != "none" {
+			nhs = append(nhs, netip.MustParseAddr(r.Nhl))
+		}
+		a, err := bgp.NewPathAttributeMpReachNLRI(fam, []bgp.PathNLRI{{NLRI: nlri}}, nhs...)
 		if err != nil {
 			panic(err)
 		}
@@ -478,7 +484,7 @@ func c09Build(r c09Route, pfx int) c09Built {
 // ---- concrete attributes -> abstract projection ----
 
 func c09Project(list []bgp.PathAttributeInterface) c09Attrs {
-	o := c09Attrs{Origin: -1, Aspath: []c09Seg{}, Nha: "none", Nhm: "none", Lp: -1, Med: -1, Origid: "none",
+	o := c09Attrs{Origin: -1, Aspath: []c09Seg{}, Nha: "none", Nhm: "none", Nhl: "none", Lp: -1, Med: -1, Origid: "none",
 		Clist: []string{}, Unk: []string{}, Comm: []int64{}, Other: []string{}}
 	seen := map[bgp.BGPAttrType]bool{}
 	for _, a := range list {
@@ -521,9 +527,26 @@ func c09Project(list []bgp.PathAttributeInterface) c09Attrs {
 				o.Clist = append(o.Clist, x.String())
 			}
 		case *bgp.PathAttributeMpReachNLRI:
-			o.Nhm = v.Nexthop.String()
-			if v.LinkLocalNexthop.IsValid() {
-				o.Other = append(o.Other, "linklocal:"+v.LinkLocalNexthop.String())
+			// the WHOLE next-hop field as it goes on the wire: serialise the attribute and decode it
+			// again (16 octets: global; 32 octets: global + link-local)
+			nh, ll := v.Nexthop, v.LinkLocalNexthop
+			if buf, err := v.Serialize(); err != nil {
+				o.Other = append(o.Other, "mpreach-serialize:"+err.Error())
+			} else {
+				w := &bgp.PathAttributeMpReachNLRI{}
+				if err := w.DecodeFromBytes(buf); err != nil {
+					o.Other = append(o.Other, "mpreach-decode:"+err.Error())
+				} else {
+					// an IPv4 address travels IPv4-mapped in a 16-octet field: same address
+					if w.Nexthop.Unmap() != nh.Unmap() || w.LinkLocalNexthop != ll {
+						o.Other = append(o.Other, fmt.Sprintf("mpreach-wire:%v/%v", w.Nexthop, w.LinkLocalNexthop))
+					}
+					nh, ll = w.Nexthop.Unmap(), w.LinkLocalNexthop
+				}
+			}
+			o.Nhm = nh.String()
+			if ll.IsValid() {
+				o.Nhl = ll.String()
 			}
 		case *bgp.PathAttributeUnknown:
 			tr := v.GetFlags()&bgp.BGP_ATTR_FLAG_TRANSITIVE != 0
@@ -635,6 +658,15 @@ func TestVerifC09(t *testing.T) {
 				}
 				built := c09Build(r, 1)
 				stored := table.NewPath(built.family, src, bgp.PathNLRI{NLRI: built.nlri}, false, built.attrs, now, false)
+				if r.Nhl != "" && r.Nhl != "none" {
+					// a 32-octet next hop exists on the wire only: store what the receive path
+					// (table.ProcessMessage, as called by peer.handleUpdate) makes of the UPDATE
+					ps := table.ProcessMessage(bgp.NewBGPUpdateMessage(nil, built.attrs, nil), src, now, false)
+					if len(ps) != 1 {
+						t.Fatalf("ProcessMessage returned %d paths", len(ps))
+					}
+					stored = ps[0]
+				}
 				// the previous best of the same prefix, if the case has one (implicit replacement)
 				var olds []*table.Path
 				var oldBuilt []c09Built
